@@ -1,7 +1,7 @@
 SPECIFICATION TSpec
 CONSTANTS BufIds = {1, 2, 3}
   CurIds = {1, 2, 3, 4}
-  EnabledDeviations = {}
+  EnabledDeviations = {"NospecHalfClobber"}
 INVARIANT TraceInv
 POSTCONDITION TraceAccepted
 CHECK_DEADLOCK FALSE
